@@ -126,6 +126,11 @@ func TestWorker(t *testing.T) {
 			digest = world.Mix64(digest, fp)
 			digest = world.Mix64(digest, env.Steps)
 			digest = world.Mix64(digest, env.Ticks)
+			var fs uint64
+			for _, v := range env.Fired {
+				fs += v
+			}
+			digest = world.Mix64(digest, fs)
 			if v != nil {
 				digest = world.Mix64(digest, 1)
 			}
